@@ -215,6 +215,26 @@ func (m *Machine) callValue(s *State, f *Frame, x *ssa.Call, cc *ssa.CallCommon,
 				s.store(Ptr{obj: dst.obj, path: append(append([]int(nil), dst.path...), dst.off+i)}, src[i])
 			}
 			setRes(Sc{c.BV(uint64(n), 64)})
+		case "clear":
+			switch a := args[0].(type) {
+			case Ptr:
+				if a.obj != 0 {
+					if _, ok := s.load(a).(MapV); ok {
+						s.store(a, MapV{})
+					}
+				}
+			case SliceV:
+				et := cc.Args[0].Type().Underlying().(*types.Slice).Elem()
+				for i := 0; i < a.len; i++ {
+					s.store(Ptr{obj: a.obj, path: append(append([]int(nil), a.path...), a.off+i)}, m.zero(et))
+				}
+			}
+		case "ssa:wrapnilchk":
+			if p, ok := args[0].(Ptr); ok && p.obj == 0 {
+				m.panicState(s, "nil dereference (method value wrapper)", f, f.blk.Instrs[f.idx-1])
+				return nil
+			}
+			setRes(args[0])
 		case "min", "max":
 			_, signed, _ := intWidth(cc.Args[0].Type())
 			acc := sc(args[0])
@@ -500,8 +520,10 @@ func (m *Machine) intrinsic(s *State, f *Frame, x *ssa.Call, name string, callee
 		f.env[x] = v
 		s.pc = append(s.pc, c.Cmp("bvsge", sc(v), c.BV(0, 64)), c.Cmp("bvslt", sc(v), n))
 		return nil, true
-	case name == "context.WithCancel" || name == "context.WithTimeout":
-		f.env[x] = TupleV{[]Value{args[0], FuncV{noop: true}}}
+	case name == "context.WithCancel" || name == "context.WithTimeout" || name == "context.WithDeadline":
+		// cancellable contexts: model defined in the harness runtime (deadlines never fire by themselves)
+		m.stubs["context.WithCancel/WithTimeout: model context, deadlines never fire"]++
+		m.pushFrame(s, m.hpkg.Func("zzWithCancel"), args[:1], nil, x)
 		return nil, true
 	case name == "time.After":
 		id := s.alloc(ChanV{cap: 1, buf: []Value{m.zero(x.Type().Underlying().(*types.Chan).Elem())}})
@@ -887,6 +909,18 @@ func (m *Machine) timeIntrinsic(s *State, f *Frame, x *ssa.Call, name string, ar
 	case "time.After":
 		id := s.alloc(ChanV{cap: 1, buf: []Value{m.zero(x.Type().Underlying().(*types.Chan).Elem())}})
 		f.env[x] = Ptr{obj: id}
+		return nil, true
+	case "time.NewTicker":
+		// periodic background work (retention trimmers) is checked by its own harnesses: the tick never fires here
+		m.stubs["time.NewTicker: the tick never fires (periodic trimming is checked separately)"]++
+		tk := m.zero(x.Type().(*types.Pointer).Elem()).(StructV)
+		tk.f[0] = Ptr{obj: s.alloc(ChanV{cap: 1})}
+		f.env[x] = Ptr{obj: s.alloc(tk)}
+		return nil, true
+	case "(*time.Ticker).Stop", "(*time.Timer).Stop":
+		if x != nil && name == "(*time.Timer).Stop" {
+			f.env[x] = Sc{c.Bool(true)}
+		}
 		return nil, true
 	}
 	return nil, false
